@@ -15,7 +15,70 @@ ASSUMPTIONS = ["HLS segment finalisation and TS audio flush at teardown are deci
 FULL_OUTPUT = True
 
 
+def gen_idle(tier, rng):
+    """liveness sweep: sessions with exactly driven byte counters, ticks around multiples of 120"""
+    n = 120 if tier == "quick" else 1500
+    for k in range(n):
+        ev = []
+        sess = {}
+        nid = 1
+        pub_stage = 0
+        for step in range(rng.randrange(3, 14)):
+            a = rng.random()
+            if a < 0.3 and len(sess) < 5:
+                kind = rng.choice(["sr", "sf", "st"] + ([] if any(v == "pr" for v in sess.values()) else ["pr", "pr"]))
+                sess[nid] = kind
+                ev.append("a:%d:%s" % (nid, kind))
+                if kind == "pr":
+                    ev.append("b:%d:1537:0" % nid)
+                    pub_stage = 1
+                nid += 1
+            elif a < 0.65 and sess:
+                i = rng.choice(list(sess))
+                if sess[i] == "pr":
+                    if pub_stage == 1:
+                        ev.append("b:%d:1536:0" % i)
+                        pub_stage = 2
+                    else:
+                        ev.append("b:%d:%d:0" % (i, 16 * rng.randrange(1, 4)))
+                else:
+                    ev.append("b:%d:0:%d" % (i, rng.choice([1, 7, 100, 5000])))
+            else:
+                base = rng.choice([120, 240, 360, 1200, 4294967280])
+                ev.append("t:%d" % (base + rng.choice([0, 0, 0, 1, 119, 60])))
+        yield Case("c16.idle " + ";".join(ev), cls="idle-sweep")
+
+
+def idle_oracle(c, out):
+    if out.startswith(("panic@", "crash@", "timeout", "err", "bad")):
+        return (False, "implementation failed: " + out)
+    evs = [e.split(":") for e in c.line.split(" ")[1].split(";") if e]
+    st = {}   # id -> dict(kind, r, w, stale, closed)
+    for e in evs:
+        if e[0] == "a":
+            st[e[1]] = dict(kind=e[2], r=0, w=0, stale=None, closed=False)
+        elif e[0] == "b":
+            x = st[e[1]]
+            if not x["closed"]:
+                x["r"] += int(e[2]); x["w"] += int(e[3])
+        elif e[0] == "t" and int(e[1]) % 120 == 0:
+            for x in st.values():
+                cur = x["r"] if x["kind"] == "pr" else x["w"]
+                if x["stale"] is not None and cur == x["stale"]:
+                    x["closed"] = True     # counter did not move since the previous sweep
+                x["stale"] = cur
+    got = dict(p.split("=") for p in out.split("|"))
+    for i, x in st.items():
+        if got.get(i) != ("1" if x["closed"] else "0"):
+            return (False, "session %s (%s): disposed=%s, the idle rule says %s" % (i, x["kind"], got.get(i), x["closed"]))
+    want_inactive = all(x["closed"] for x in st.values())
+    if got.get("inactive") != ("1" if want_inactive else "0"):
+        return (False, "group.IsInactive()=%s with %d sessions left" % (got.get("inactive"), sum(not x["closed"] for x in st.values())))
+    return (True, "")
+
+
 def gen_cases(tier, rng):
+    yield from gen_idle(tier, rng)
     kinds = ["r", "f", "w", "t"]
     names = sorted(fanout.STREAMS)
     n = 260 if tier == "quick" else 3000
@@ -74,10 +137,14 @@ def split_impl(c, out):
 
 
 def nontrivial(c, out):
+    if c.line.startswith("c16.idle"):
+        return c.line if "=1" in out else None
     return c.line if c.line.count(";I") + c.line.startswith("c01.hist") >= 2 else None
 
 
 def oracle(c, out):
+    if c.line.startswith("c16.idle"):
+        return idle_oracle(c, out)
     if out.startswith(("panic@", "crash@", "timeout", "err", "bad")):
         return (False, "implementation failed: " + out)
     cfg, evs = fanout.parse_case(c.line)
